@@ -11,12 +11,18 @@ is delivered … never if rejected" and what the application re-sends afterwards
                          the call started comes up once, `getNextStreamFrame` asks the stream registered under it;
 * `appendControl`        `appendControlFrames` with room for everything: every stream with control frames is emptied
                          (map order: the oracle sorts), then the control-frame queue from its END;
-* `handle0RTTRejection`  `Handle0RTTRejection`: queue and registry emptied, flow-control frames dropped.
+* `handle0RTTRejection`  `Handle0RTTRejection`: queue and registry emptied, flow-control frames dropped; whether the
+                         streams that announced control frames (`streamsWithControlFrames`) are forgotten too is READ
+                         FROM THE SOURCE (`Gen.FramerReject.handle0RTTRejectionClearsStreamControl`): the handler of
+                         the repaired code empties that map, the older one leaves it alone
+                         (`handle0RTTRejectionWith true` / `false`).
 
 A stream is represented by its id; `pend id` says how many STREAM frames the stream registered under that id still
 has (a stream closed by the rejection has none; the stream the application opens afterwards under the same id starts
 with what it is given).  Core-only.
 -/
+import Uquic.Generated.FramerReject
+
 namespace Uquic.Model.Handshake.FramerReset
 
 /-- control frames as far as `Handle0RTTRejection` tells them apart -/
@@ -51,10 +57,17 @@ def addCtrl (f : Framer) (id : Nat) : Framer :=
 
 def queueControl (f : Framer) (c : Ctl) (tag : Nat) : Framer := { f with frames := f.frames ++ [(c, tag)] }
 
-def handle0RTTRejection (f : Framer) : Framer :=
-  { f with queue := [], active := [], frames := f.frames.filter (fun c => !c.1.flowControl) }
+/-- `Handle0RTTRejection` for either shape of the source: `clearsCtrl` = the handler also empties
+`streamsWithControlFrames` -/
+def handle0RTTRejectionWith (clearsCtrl : Bool) (f : Framer) : Framer :=
+  { f with queue := [], active := [], ctrl := if clearsCtrl then [] else f.ctrl, frames := f.frames.filter (fun c => !c.1.flowControl) }
 
-/-- NOT the code: the rejection handler that empties the neighbouring map (negative witness only) -/
+/-- `Handle0RTTRejection` as the checked-out source has it -/
+def handle0RTTRejection (f : Framer) : Framer :=
+  handle0RTTRejectionWith Uquic.Gen.FramerReject.handle0RTTRejectionClearsStreamControl f
+
+/-- NOT the code: the rejection handler that empties the neighbouring map INSTEAD of `activeStreams` (negative
+witness only) -/
 def handle0RTTRejectionWrongMap (f : Framer) : Framer :=
   { f with queue := [], ctrl := [], frames := f.frames.filter (fun c => !c.1.flowControl) }
 
